@@ -9,12 +9,12 @@ def split(src):
     i = src.index('\nPROPS = {')
     head, props = src[:i], src[i:]
     # top-level blocks of head
-    blocks = re.split(r'\n(?=def |class |[A-Z_]+ = )', head)
+    blocks = re.split(r'\n(?=def |class |[A-Z][A-Z0-9_]* = )', head)
     return blocks, props
 ob, op = split(ours)
 tb, tp = split(theirs)
 def name(b):
-    m = re.match(r'\s*(?:def|class)\s+(\w+)|\s*([A-Z_]+) = ', b)
+    m = re.match(r'\s*(?:def|class)\s+(\w+)|\s*([A-Z][A-Z0-9_]*) = ', b)
     return (m.group(1) or m.group(2)) if m else None
 onames = {name(b) for b in ob}
 extra = [b for b in tb if name(b) and name(b) not in onames]
